@@ -215,7 +215,16 @@ func kvList(l []db.KeyValue) []KV {
 	return out
 }
 
-func dump(d *db.DB) []KV { return kvList(d.Iterate([]byte{}, -1, false)) }
+// dump observes the whole database with a bare pebble iterator (hook VerifC12RawDump), NOT with the Iterate under test: a scan
+// defect can then not hide a Commit / RevertDiff deviation.
+func dump(d *db.DB) []KV {
+	ks, vs := d.VerifC12RawDump()
+	out := make([]KV, 0, len(ks))
+	for i := range ks {
+		out = append(out, KV{hx2(ks[i]), hx2(vs[i])})
+	}
+	return out
+}
 
 func sortKV(l []KV) []KV {
 	sort.Slice(l, func(i, j int) bool { return string(unhex(l[i][0])) < string(unhex(l[j][0])) })
